@@ -1,3 +1,5 @@
+pub mod asm;
+pub mod sbuf;
 pub mod wire;
 
 use crate::{Rng, Runner};
@@ -10,6 +12,8 @@ pub fn lookup(name: &str) -> Option<(&'static str, GenFn)> {
         "varint" => (wire::VARINT_RULE, wire::varint as GenFn),
         "pn" => (wire::PN_RULE, wire::pn as GenFn),
         "dedup" => (wire::DEDUP_RULE, wire::dedup as GenFn),
+        "sbuf" => (sbuf::SBUF_RULE, sbuf::sbuf as GenFn),
+        "asm" => (asm::ASM_RULE, asm::asm as GenFn),
         _ => return None,
     })
 }
